@@ -65,10 +65,10 @@ def build_objstm(members, rng, sp, trailing_ws, member_sep):
     return bytes(head) + bytes(body), len(head)
 
 
-def make_file(rng, tier):
+def make_file(rng, tier, vals=None):
     sp = S.Speller(rng, comments=False)
-    n = rng.choice([1, 2, 3, 5])
-    vals = [S.rand_value(rng, depth=rng.choice([0, 0, 1, 2]), kinds=["null", "bool", "int", "real", "name", "str", "arr", "dict", "ref"]) for _ in range(n)]
+    n = rng.choice([1, 2, 3, 5]) if vals is None else len(vals)
+    vals = vals if vals is not None else [S.rand_value(rng, depth=rng.choice([0, 0, 1, 2]), kinds=["null", "bool", "int", "real", "name", "str", "arr", "dict", "ref"]) for _ in range(n)]
     objs = minimal_catalog()
     base = 10
     direct_nums = [base + i for i in range(n)]
@@ -141,6 +141,23 @@ def generate(rng, tier):
             yield Case("resolve_one", [b"s", data, str(dn).encode()], expect=exp, model=False, tags=tags + ["direct"])
             yield Case("objstm", [b"s", data, str(cn).encode()], mfields=[str(first).encode(), str(n).encode(), str(idx).encode(), payload],
                        expect=exp, tags=tags + ["compressed"])
+    # nesting at and around the supported depth: the limit must be the same for both storage forms
+    def nest(d, rng):
+        v = rng.choice([7, Name("x"), b"s", None])
+        for _ in range(d):
+            v = [v] if rng.random() < 0.5 else {"K": v}
+        return v
+    for d in (1, 18, 19, 20, 21, 22):
+        for rep in range(2 if tier == "quick" else 20):
+            vals = [nest(d, rng)] + ([nest(rng.choice([2, 19, 20]), rng)] if rep else [])
+            data, vals, dnums, cnums, payload, first, filt, trailing = make_file(rng, tier, vals)
+            for idx, (v, dn, cn) in enumerate(zip(vals, dnums, cnums)):
+                deep = max(d if idx == 0 else 0, 0)
+                exp = ok(S.canon(v)) if depth_of(v) <= 20 else err()
+                tags = ["depth:%d" % depth_of(v)]
+                yield Case("resolve_one", [b"s", data, str(dn).encode()], expect=exp, model=False, tags=tags + ["direct"])
+                yield Case("objstm", [b"s", data, str(cn).encode()], mfields=[str(first).encode(), str(len(vals)).encode(), str(idx).encode(), payload],
+                           expect=exp, tags=tags + ["compressed"])
     # streams whose /Length is stored in the three ways
     for i in range(60 if tier == "quick" else 2000):
         body = S.rand_bytes(rng) + bytes(rng.randrange(256) for _ in range(rng.randint(0, 40)))
@@ -161,6 +178,14 @@ def generate(rng, tier):
         ln = b"i%d" % len(body) if how == "direct" else b"R11,0"
         exp = ok(b"s{4b:i1 4c656e677468:" + ln + b"}" + body.hex().encode() + b";")
         yield Case("resolve_one", [b"s", data, b"10"], expect=exp, model=False, tags=["length:" + how])
+
+
+def depth_of(v):
+    if isinstance(v, (list, tuple)):
+        return 1 + max([depth_of(x) for x in v] + [0])
+    if isinstance(v, dict):
+        return 1 + max([depth_of(x) for x in v.values()] + [0])
+    return 0
 
 
 def always(case, r):
